@@ -53,7 +53,10 @@ Print Assumptions C03_read_metadata_oneline.
 
 (* ------------------------------------------------------------------ admonitions: words *)
 (* no word dropped, duplicated or reordered: every "@type" word becomes the two words
-   "@note" "Type", every "@endtype" word disappears, everything else stays, in order *)
+   "@note" "Type", every "@endtype" word disappears, everything else stays, in order.
+   Full statement since the repair of doc-text-before-note-dropped: text may precede a start
+   marker on its line ([admon_ok] asks only that markers are whole words, at most one start and
+   one end marker per piece of a line). *)
 Theorem C03_admon_words : forall l out,
   admon_ok l = true -> run l = Ok out -> words out = note_titles (strip_markers (words l)).
 Proof. exact admon_words. Qed.
@@ -61,33 +64,31 @@ Print Assumptions C03_admon_words.
 
 (* when the first pass accepts a clean text, the second pass cannot raise *)
 Theorem C03_admon_total : forall l adms,
-  admon_ok l = true -> find_admonitions l = Ok adms ->
+  admon_ok l = true -> find_admonitions (split_leading_text l) = Ok adms ->
   exists out, run l = Ok out /\ words out = spec_words l.
 Proof. exact admon_total. Qed.
 Print Assumptions C03_admon_total.
 
-(* the full statement (text may precede a start marker) is false of the code as it is *)
-Definition C03_admon_words_statement : Prop := admon_words_statement.
+(* putting a start marker that follows other text on a line of its own changes no word, for
+   every text *)
+Theorem C03_admon_split_words : forall l, spec_words (split_leading_text l) = spec_words l.
+Proof. exact split_words. Qed.
+Print Assumptions C03_admon_split_words.
 
-Theorem C03_admon_words_partial : forall l out,
-  forallb (fun x => start_clean_pre x && end_clean x) l = true ->
-  existsb pretext_region l = false ->
-  run l = Ok out -> words out = spec_words l.
-Proof. exact admon_words_partial. Qed.
-Print Assumptions C03_admon_words_partial.
+(* the former refutation witnesses of doc-text-before-note-dropped, now inside the theorem's domain *)
+Theorem C03_pretext_fixed :
+  admon_ok pretext_witness = true /\
+  run pretext_witness = Ok [s "alpha beta"; s "@note Note"; s "     gamma"] /\
+  words [s "alpha beta"; s "@note Note"; s "     gamma"] = spec_words pretext_witness /\
+  spec_words pretext_witness = [s "alpha"; s "beta"; s "@note"; s "Note"; s "gamma"].
+Proof. exact pretext_fixed. Qed.
+Print Assumptions C03_pretext_fixed.
 
-Theorem C03_refuted_pretext : ~ C03_admon_words_statement.
-Proof. exact refuted_pretext_statement. Qed.
-Print Assumptions C03_refuted_pretext.
-
-Theorem C03_refuted_pretext_witness :
-  forallb (fun x => start_clean_pre x && end_clean x) pretext_witness = true /\
-  existsb pretext_region pretext_witness = true /\
-  run pretext_witness = Ok [s " @note Note"; s "      gamma"] /\
-  spec_words pretext_witness = [s "alpha"; s "beta"; s "@note"; s "Note"; s "gamma"] /\
-  words [s " @note Note"; s "      gamma"] = [s "@note"; s "Note"; s "gamma"].
-Proof. exact refuted_pretext. Qed.
-Print Assumptions C03_refuted_pretext_witness.
+Theorem C03_inside_word_fixed :
+  admon_ok [s "mail joe@notebook.org now"] = true /\
+  run [s "mail joe@notebook.org now"] = Ok [s "mail joe@notebook.org now"].
+Proof. exact inside_word_fixed. Qed.
+Print Assumptions C03_inside_word_fixed.
 
 (* ------------------------------------------------------------------ admonitions: errors *)
 Theorem C03_admon_errors : forall l e,
@@ -101,8 +102,8 @@ Theorem C03_admon_end_without_start : forall P x R,
 Proof. exact end_without_start. Qed.
 Print Assumptions C03_admon_end_without_start.
 
-Theorem C03_admon_end_type_mismatch : forall P st M x R p ind ty post pre ety epost,
-  Forall plain P -> adm_search st = Some (p, ind, ty, post) -> end_search st = None ->
+Theorem C03_admon_end_type_mismatch : forall P st M x R ind ty post pre ety epost,
+  Forall plain P -> adm_search st = Some ([], ind, ty, post) -> end_search st = None ->
   Forall plain M -> adm_search x = None -> end_search x = Some (pre, ety, epost) ->
   lower ety <> lower ty ->
   run (P ++ st :: M ++ x :: R) = Err ETypeMismatch.
@@ -111,13 +112,21 @@ Print Assumptions C03_admon_end_type_mismatch.
 
 (* ------------------------------------------------------------------ admonitions: indentation *)
 (* one iteration of the second pass, box anywhere in the text: every line strictly between the
-   start line and the end line gets four more blanks (empty lines stay empty) *)
-Theorem C03_admon_indent_step : forall ty a1 ls m le r p ind ty' post out,
+   start line and the first line after the box gets four more blanks (empty lines stay empty) *)
+Theorem C03_admon_indent_step : forall ty a1 ls m rest p ind ty' post out,
   adm_search ls = Some (p, ind, ty', post) ->
-  step (ty, length a1, length (a1 ++ ls :: m)) (a1 ++ ls :: m ++ le :: r) = Ok out ->
+  step (ty, length a1, length (a1 ++ ls :: m)) (a1 ++ ls :: m ++ rest) = Ok out ->
   exists tail, out = a1 ++ title_block ind ty post ++ map indent1 m ++ tail.
 Proof. exact step_indents. Qed.
 Print Assumptions C03_admon_indent_step.
+
+(* ... and when the box is not closed by an end marker the text after it is left alone *)
+Theorem C03_admon_rest_untouched : forall ty a1 ls m rest p ind ty' post,
+  adm_search ls = Some (p, ind, ty', post) -> no_end_at rest ->
+  step (ty, length a1, length (a1 ++ ls :: m)) (a1 ++ ls :: m ++ rest)
+  = Ok (a1 ++ title_block ind ty post ++ map indent1 m ++ rest).
+Proof. exact step_rest_untouched. Qed.
+Print Assumptions C03_admon_rest_untouched.
 
 (* the whole pre-processor on a box closed by its end marker *)
 Theorem C03_admon_indent : forall P st M x Q ind ty post pre ety epost out,
@@ -129,24 +138,20 @@ Theorem C03_admon_indent : forall P st M x Q ind ty post pre ety epost out,
 Proof. exact box_indent. Qed.
 Print Assumptions C03_admon_indent.
 
-(* the line after the box keeps its indentation: false of the code as it is *)
-Definition C03_admon_indent_exact_statement : Prop := box_exact_statement.
-
-Theorem C03_admon_indent_exact_partial : forall P st M x q Q ind ty post pre ety epost out,
+(* the line after the box keeps its indentation: full statement since the repair of
+   doc-line-after-box-indented *)
+Theorem C03_admon_indent_exact : forall P st M x q Q ind ty post pre ety epost out,
   box_hyps P st M x (q :: Q) ind ty post pre ety epost -> plain q ->
-  pullin_region epost q = false ->
   run (P ++ st :: M ++ x :: q :: Q) = Ok out ->
   exists T', out = P ++ title_block ind ty post ++ map indent1 M ++ map indent1 (end_keep pre)
                      ++ end_extra epost ++ q :: T'.
-Proof. exact box_exact_partial. Qed.
-Print Assumptions C03_admon_indent_exact_partial.
+Proof. exact box_exact. Qed.
+Print Assumptions C03_admon_indent_exact.
 
-Theorem C03_refuted_pullin : ~ C03_admon_indent_exact_statement.
-Proof. exact refuted_box_exact. Qed.
-Print Assumptions C03_refuted_pullin.
-
-Theorem C03_refuted_pullin_witness :
-  run pullin_witness = Ok [s "@note Note"; s "    a"; s "    b"] /\
-  run [s "@note a"; s "@warning b"] = Ok [s "@note Note"; s "     a"; s "    @note Warning"; s "     b"].
-Proof. exact (conj refuted_pullin consecutive_boxes_nested). Qed.
-Print Assumptions C03_refuted_pullin_witness.
+(* the former refutation witnesses: the line after the box stays outside, consecutive boxes are
+   siblings *)
+Theorem C03_pullin_fixed :
+  run pullin_witness = Ok [s "@note Note"; s "    a"; s "b"] /\
+  run [s "@note a"; s "@warning b"] = Ok [s "@note Note"; s "     a"; s "@note Warning"; s "     b"].
+Proof. exact pullin_fixed. Qed.
+Print Assumptions C03_pullin_fixed.
